@@ -165,6 +165,7 @@ type c13luPKI struct {
 	byPEM       map[string]string
 	byDER       map[string]string
 	listen      *net.TCPListener
+	conns       int
 	listenError error
 }
 
@@ -547,9 +548,22 @@ func c13luAccept(ln *net.TCPListener, al *activeListener) *c13luSide {
 //	refused      it received nothing (handshake or first read failed)
 func c13luObserve(al *activeListener) (out []string, detail []string, herr string) {
 	p := c13luSetup()
+	if p.listen != nil && p.conns >= 10000 {
+		// a fresh ephemeral port now and then: closed connections linger in
+		// TIME_WAIT per (address, port) pair
+		p.listen.Close()
+		p.listen, p.conns = nil, 0
+		ln, err := net.Listen("tcp", "127.0.0.1:0")
+		if err != nil {
+			p.listenError = err
+		} else {
+			p.listen = ln.(*net.TCPListener)
+		}
+	}
 	if p.listen == nil {
 		return nil, nil, "cannot open the harness loopback socket: " + p.listenError.Error()
 	}
+	p.conns += len(c13luProbes)
 	for _, pr := range c13luProbes {
 		ch := make(chan *c13luSide, 1)
 		pr := pr
